@@ -71,6 +71,14 @@ CUTOFF_MODELS_QUICK = ["sphere", "core_shell_sphere", "cylinder", "ellipsoid", "
 CUTOFFS = [0.0, 1e-5, 1e-2, "gap"]      # "gap": inside the widest gap between the sorted mesh weights near the median
 PD_ONE = {"n": 40, "width": 0.2, "nsigma": 4.0}
 PD_TWO = {"n": 10, "width": 0.2, "nsigma": 3.0}
+COMPOSITES = ["sphere@hardsphere", "cylinder@squarewell", "sphere+cylinder", "sphere*cylinder",
+              "sphere@hardsphere+cylinder", "sphere+cylinder*lamellar", "sphere+sphere+sphere"]
+# exact zeros: |q| = 0 and an ordinary q; 2-D points on the axes and at the origin.  (Tiny non-zero q is left out on
+# purpose: q = 1e-40 is subnormal in float32, q^2 underflows and lamellar's 1/q^2 = 8e79 is not a float32 number -
+# that is the range of the type, not a property of the conversion.)
+ZERO_Q1 = [0.0, 0.011]
+ZERO_Q2 = [[0.0, 0.0], [0.05, 0.0], [0.0, 0.05], [0.03, 0.04]]
+ZERO_ANGLES = [None, 0.0, 90.0]         # None = the model's defaults; else every orientation angle at this value
 U = {"float32": 2.0 ** -24, "float64": 2.0 ** -53, "longdouble": 2.0 ** -53}   # the reference itself sums in double
 
 KEYWORDS = {"double": "", "double2": "2", "double4": "4", "double8": "8", "double16": "16"}
@@ -182,6 +190,10 @@ def cases(ctx):
         out.append({"kind": "cutoff", "model": m, "pd": "one"})
         if npd >= 2:
             out.append({"kind": "cutoff", "model": m, "pd": "two"})
+    for m in build.compiled_models():
+        out.append({"kind": "zeros", "model": m})
+    for expr in COMPOSITES:
+        out.append({"kind": "composite", "model": expr})
     flagged = _flag_models()
     for key, m in sorted(flagged.items()):
         out.append({"kind": "dtype", "model": m, "flags": key})
@@ -413,6 +425,10 @@ def run_case(case, ctx):
         return _run_e2e(case, ctx)
     if kind == "cutoff":
         return _run_cutoff(case, ctx)
+    if kind == "zeros":
+        return _run_zeros(case, ctx)
+    if kind == "composite":
+        return _run_composite(case, ctx)
     raise HarnessError("unknown case kind %r" % kind)
 
 
@@ -510,6 +526,7 @@ def _run_model(case, ctx):
     blk.close("model-source")
     r.branches["model-sources"] += 1
     toks = clex.lex(src)
+    _representable(r, name, toks)
     r.extra["model-type-keywords"] += sum(1 for t in toks if t.kind == "ident" and (t.text in KEYWORDS or t.text == "cdouble"))
     r.extra["model-float-literals"] += sum(1 for t in toks if t.kind == "ppnum" and clex.is_decimal_float(t.text))
     r.extra["model-tokens"] += len(toks)
@@ -636,6 +653,192 @@ def _run_e2e(case, ctx):
                 r.fail("%s: value %s deviates from double %s by %.3g of max|I| (bound %g)" % (call, val, ref, err, tol), fk)
             else:
                 r.ok(nt=want.itemsize != 8, outcome="e2e:%s" % want, branches=["dtype-e2e"], trans=2)
+    return r
+
+
+def _representable(r, name, toks):
+    """
+    every unsuffixed decimal floating literal that reaches the float32 build must stay representable once it is tagged
+    'f': finite and non-zero in double <=> finite and non-zero in float32 (a literal that underflows to 0.0f or
+    overflows to inf turns a guard like `x < 2.2e-308` or a scale factor into something else in single precision only).
+    Literals inside `#if FLOAT_SIZE > 4` blocks are not part of the float32 build.
+    """
+    stack = []          # True = this conditional block is compiled for FLOAT_SIZE > 4 only
+    cur = "?"
+    i, n = 0, len(toks)
+    while i < n:
+        t = toks[i]
+        if t.directive is not None and t.text in ("#", "%:") and t.kind == "punct":
+            j = i + 1
+            line = []
+            while j < n and toks[j].directive is not None and not (toks[j].kind == "punct" and toks[j].text in ("#", "%:")
+                                                                   and toks[j].pos > t.pos and _starts_line(toks, j)):
+                line.append(toks[j])
+                j += 1
+            words = [x.text for x in line]
+            d = words[0] if words else ""
+            if d in ("if", "ifdef", "ifndef"):
+                stack.append(words[1:4] == ["FLOAT_SIZE", ">", "4"] and d == "if")
+            elif d in ("else", "elif") and stack:
+                stack[-1] = False
+            elif d == "endif" and stack:
+                stack.pop()
+            elif d == "line":
+                for x in line:
+                    if x.kind == "string":
+                        cur = x.text.strip('"')
+            if d != "define":
+                i = j
+                continue
+            i += 1
+            continue
+        if t.kind == "ppnum" and clex.is_decimal_float(t.text) and not any(stack):
+            v = float(t.text)
+            with np.errstate(all="ignore"):
+                f = np.float32(v)
+            if v != 0.0 and np.isfinite(v) and (f == 0.0 or not np.isfinite(f)):
+                how = "underflows to 0" if f == 0.0 else "overflows to inf"
+                r.fail("make_source(%s)['dll']: the literal %s (%s) %s in float32: convert_type tags it %sf, which is %r"
+                       % (name, t.text, cur, how, t.text, float(f)),
+                       {"clause": "literal-not-representable", "literal": t.text, "file": cur, "dtype": "float32"})
+            else:
+                r.branches["literal-representable"] += 1
+        i += 1
+
+
+def _starts_line(toks, j):
+    """token j is a '#' that opens a new directive (its directive tag was assigned by the lexer at a line start)"""
+    return j + 1 < len(toks) and toks[j + 1].kind == "ident" and toks[j + 1].directive == toks[j].directive
+
+
+def _walk_models(m, path="model"):
+    """(path, leaf model) for every part of a composite model"""
+    if hasattr(m, "parts"):
+        for k, p in enumerate(m.parts):
+            for x in _walk_models(p, "%s.parts[%d]" % (path, k)):
+                yield x
+    elif hasattr(m, "P") and hasattr(m, "S"):
+        for x in _walk_models(m.P, path + ".P"):
+            yield x
+        for x in _walk_models(m.S, path + ".S"):
+            yield x
+    else:
+        yield path, m
+
+
+def _walk_kernels(k, path="kernel"):
+    if hasattr(k, "kernels"):
+        for i, p in enumerate(k.kernels):
+            for x in _walk_kernels(p, "%s.kernels[%d]" % (path, i)):
+                yield x
+    elif hasattr(k, "p_kernel") and hasattr(k, "s_kernel"):
+        for x in _walk_kernels(k.p_kernel, path + ".p_kernel"):
+            yield x
+        for x in _walk_kernels(k.s_kernel, path + ".s_kernel"):
+            yield x
+    else:
+        yield path, k
+
+
+def _run_composite(case, ctx):
+    """every spelling of a precision request on composite models: the model, EVERY part, and every kernel made from them"""
+    from sasmodels import core
+    from sasmodels.direct_model import call_kernel
+    r = R()
+    expr = case["model"]
+    q = np.array(Q)
+    for spell in DTYPE_SPELLINGS:
+        for bang in ("", "!"):
+            if spell is None and bang:
+                continue
+            arg = None if spell is None else spell + bang
+            want = np.dtype(EXPECT_DTYPE[spell])
+            call = "load_model(%r, dtype=%r)" % (expr, arg)
+            fk = {"clause": "dtype-composite", "spelling": str(spell), "bang": bang}
+            try:
+                m = core.load_model(expr, dtype=arg)
+            except ValueError as exc:
+                if want == np.dtype("float16"):
+                    r.ok(nt=True, outcome="half-refused", branches=["half-refused"])
+                else:
+                    r.fail("%s raised %r" % (call, exc), fk)
+                continue
+            except Exception as exc:  # noqa
+                r.fail("%s raised %r" % (call, exc), fk)
+                continue
+            bad = []
+            if np.dtype(m.dtype) != want:
+                bad.append("model.dtype = %s" % m.dtype)
+            nparts = 0
+            for path, leaf in _walk_models(m):
+                nparts += 1
+                bits = 8 * want.itemsize
+                if np.dtype(leaf.dtype) != want:
+                    bad.append("%s (%s).dtype = %s" % (path, leaf.info.name, leaf.dtype))
+                elif hasattr(leaf, "dllpath") and ("sas%d_" % bits) not in leaf.dllpath:
+                    bad.append("%s (%s) uses library %s" % (path, leaf.info.name, leaf.dllpath))
+            try:
+                k = m.make_kernel([q])
+                with np.errstate(all="ignore"):
+                    val = np.asarray(call_kernel(k, {}))
+                if np.dtype(k.dtype) != want:
+                    bad.append("kernel.dtype = %s" % k.dtype)
+                for path, leaf in _walk_kernels(k):
+                    if np.dtype(leaf.dtype) != want or np.dtype(leaf.result.dtype) != want:
+                        bad.append("%s (%s): dtype %s, result buffer %s" % (path, leaf.info.name, leaf.dtype, leaf.result.dtype))
+                if not np.all(np.isfinite(np.asarray(val, float))):
+                    bad.append("I(q) = %s" % val)
+            except Exception as exc:  # noqa
+                bad.append("make_kernel/call_kernel raised %r" % (exc,))
+            if bad:
+                r.fail("%s: expected %s everywhere, but %s" % (call, want, "; ".join(bad)), fk, branches=["dtype-composite"])
+                r.branches["dtype-composite-parts"] += nparts
+            else:
+                r.ok(nt=want.itemsize != 8, outcome="composite:%s" % want, branches=["dtype-composite"], trans=nparts + 1)
+                r.branches["dtype-composite-parts"] += nparts
+    return r
+
+
+def _run_zeros(case, ctx):
+    """
+    built single / long double vs double at EXACT zeros: |q| = 0, 2-D points on the axes and at the origin, every orientation angle at 0 and 90 degrees.  Judged on finiteness only: where the double
+    kernel returns a finite value the other precisions must too (float32 for models declared safe for single precision,
+    long double for all).
+    """
+    from sasmodels.direct_model import call_kernel
+    r = R()
+    name = case["model"]
+    info = build.info(name)
+    orient = [p.name for p in info.parameters.orientation_parameters]
+    qsets = [("1d", [np.array(ZERO_Q1)], None)]
+    q2 = np.array(ZERO_Q2)
+    for ang in (ZERO_ANGLES if orient else [None]):
+        qsets.append(("2d", [q2[:, 0].copy(), q2[:, 1].copy()], ang))
+    dts = (["float32"] if info.single else []) + ["longdouble"]
+    for dim, qv, ang in qsets:
+        pars = {} if ang is None else {n: ang for n in orient}
+        try:
+            with np.errstate(all="ignore"):
+                ref = np.array(call_kernel(build.model(name, "double").make_kernel(qv), dict(pars)), float)
+        except Exception as exc:  # noqa
+            r.fail("%s %s: double kernel raised %r" % (name, dim, exc), {"model": name, "clause": "raises"})
+            continue
+        for dt in dts:
+            qtxt = ZERO_Q1 if dim == "1d" else ZERO_Q2
+            call = "call_kernel(load_model(%r, dtype=%r).make_kernel(%s q=%s), %s)" % (name, dt, dim, qtxt, pars)
+            try:
+                with np.errstate(all="ignore"):
+                    val = np.array(call_kernel(build.model(name, dt).make_kernel(qv), dict(pars)), float)
+            except Exception as exc:  # noqa
+                r.fail("%s raised %r" % (call, exc), {"model": name, "clause": "raises", "dtype": dt})
+                continue
+            badpts = np.isfinite(ref) & ~np.isfinite(val)
+            if np.any(badpts):
+                r.fail("%s = %s where the double kernel gives %s: not finite in %s only" % (call, val, ref, dt),
+                       {"model": name, "clause": "zero-argument", "dtype": dt, "dim": dim}, branches=["zeros-" + dt])
+            else:
+                r.ok(nt=bool(np.any(np.isfinite(ref))), outcome="zeros:%s:%s" % (dim, dt),
+                     branches=["zeros-" + dt] + (["zeros-double-nonfinite"] if not np.all(np.isfinite(ref)) else []), trans=2)
     return r
 
 
@@ -769,6 +972,11 @@ def finish(ctx, report):
     report.require("snippets", len(SNIPPETS), "property-text snippets")
     report.require("directive-lines", 100, "directive lines")
     report.require("noncode-spans-lines", 500, "strings with a comment / string literal that spans lines")
+    report.require("zeros-float32", 80, "float32 kernels at exact zeros of q / orientation")
+    report.require("zeros-longdouble", 120, "long double kernels at exact zeros of q / orientation")
+    report.require("dtype-composite", 100, "dtype spellings on composite models")
+    report.require("dtype-composite-parts", 250, "parts of composite models whose dtype was checked")
+    report.require("literal-representable", 5000, "floating literals of model sources checked for float32 representability")
     report.require("cutoff-float32", 20, "float32 kernels with dispersity and a cutoff")
     report.require("cutoff-longdouble", 20, "long double kernels with dispersity and a cutoff")
     report.require("cutoff-splits-mesh", 20, "cutoffs that leave some mesh points in and some out")
